@@ -1,7 +1,8 @@
 (* Props/C09.v -- pinned statements of property C09 (logic core; "rustc accepts" as a whole is tie-only, DESIGN.md 8).
 
    C09 is claimed PARTIAL: the theorems below cover the identifiers the generator derives from ASN.1 component /
-   alternative / item / type names (legal Rust identifiers, not keywords, outside the named known classes).  Collision
+   alternative / item / type names (legal Rust identifiers, not keywords; for variants and types outside the one
+   known class `Self`).  Collision
    freedom is refuted (the tool neither renames nor rejects), constants/derives/type checking are covered by the
    rustc stage of checks/C09.py only. *)
 From A1 Require Import Base.Res Gen.Keywords Front.Codegen Front.CodegenProofs.
@@ -9,22 +10,30 @@ From Coq Require Import String.
 Local Open Scope N_scope.
 
 (* Every ASN.1 identifier (X.680 12.3) used as a component name is emitted as a legal Rust identifier that is not a
-   keyword -- unless its mangled form is a keyword the generator's escape list (Gen/Keywords.v) misses. *)
+   keyword: the generator's escape list (Gen/Keywords.v, generated from generate/rust.rs) is complete for field names
+   (a mangled component name starts with a lower-case letter, so it can never be `Self`). *)
 Theorem C09_field_idents_legal : forall s,
-  asn_identifier s = true -> ~ Known_C09_keyword s ->
+  asn_identifier s = true ->
   is_rust_ident (emit_field s) = true /\ is_keyword (emit_field s) = false.
 Proof. exact field_idents_legal. Qed.
 
-(* ... and the known class is inhabited on the current tree: `match` (and every keyword missing from KEYWORDS) is emitted verbatim *)
-Theorem C09_refuted_keyword : exists s,
-  asn_identifier s = true /\ Known_C09_keyword s /\ is_keyword (emit_field s) = true.
-Proof. exists (codes "match"). vm_compute. repeat split; reflexivity. Qed.
+(* the escape list of the crate contains every keyword of the Rust-reference table (strict + reserved, 2021 edition)
+   that starts with a lower-case letter, in particular every keyword that is an ASN.1 identifier.  Proved by a finite
+   check against the GENERATED list: removing an entry from KEYWORDS in generate/rust.rs breaks this proof. *)
+Theorem C09_keywords_complete : forall k,
+  In k RUST_KEYWORDS -> (exists c t, k = c :: t /\ is_lower c = true) -> mem_str k KEYWORDS = true.
+Proof. exact keywords_complete. Qed.
 
-(* the complete list of component names whose emitted form is a keyword: RUST_KEYWORDS minus KEYWORDS, lower-case ones *)
-Definition unescaped_keywords : list (list N) :=
-  filter (fun k => asn_identifier k && is_keyword (emit_field k)) RUST_KEYWORDS.
-Theorem C09_refuted_keyword_count : List.length unescaped_keywords = 41%nat.
-Proof. vm_compute. reflexivity. Qed.
+Theorem C09_keywords_complete_identifier : forall k,
+  In k RUST_KEYWORDS -> asn_identifier k = true -> mem_str k KEYWORDS = true.
+Proof. exact keywords_complete_identifier. Qed.
+
+(* how many keywords that covers, and that every one of them is emitted escaped *)
+Definition identifier_keywords : list (list N) := filter asn_identifier RUST_KEYWORDS.
+Theorem C09_keywords_escaped :
+  List.length identifier_keywords = 50%nat /\
+  forallb (fun k => str_eqb (emit_field k) (k ++ [USCORE])) identifier_keywords = true.
+Proof. split; vm_compute; reflexivity. Qed.
 
 (* alternative / ENUMERATED item names (identifiers) and type names (typereferences) become variants / type names *)
 Theorem C09_variant_idents_legal : forall s,
@@ -56,16 +65,19 @@ Qed.
 
 (* non-vacuity: the hypotheses of the legality theorems are inhabited, and an escaped keyword is covered by them *)
 Example C09_nonvacuous_field :
-  asn_identifier (codes "type") = true /\ ~ Known_C09_keyword (codes "type") /\ emit_field (codes "type") = codes "type_".
-Proof. split; [reflexivity|]. split; [|reflexivity]. intros [_ H]. vm_compute in H. discriminate. Qed.
+  asn_identifier (codes "match") = true /\ emit_field (codes "match") = codes "match_" /\
+  asn_identifier (codes "my-field") = true /\ emit_field (codes "my-field") = codes "my_field" /\
+  In (codes "match") RUST_KEYWORDS.
+Proof. repeat split; try reflexivity. vm_compute. tauto. Qed.
 
 Example C09_nonvacuous_variant :
   asn_identifier (codes "dark-blue") = true /\ ~ Known_C09_variant (codes "dark-blue") /\ emit_variant (codes "dark-blue") = codes "DarkBlue".
 Proof. split; [reflexivity|]. split; [|reflexivity]. intros H. vm_compute in H. discriminate. Qed.
 
 Print Assumptions C09_field_idents_legal.
-Print Assumptions C09_refuted_keyword.
-Print Assumptions C09_refuted_keyword_count.
+Print Assumptions C09_keywords_complete.
+Print Assumptions C09_keywords_complete_identifier.
+Print Assumptions C09_keywords_escaped.
 Print Assumptions C09_variant_idents_legal.
 Print Assumptions C09_type_idents_legal.
 Print Assumptions C09_refuted_variant_Self.
